@@ -1038,11 +1038,6 @@ theorem held_rwClose (cfg : Cfg α) (s : Nat) (hs0 : s ≠ 0) (hs1 : isInformati
 /-- before the final WriteHeader: header edits and 1xx responses commit nothing -/
 def Uncommitted (st : St α) : Prop := st.wroteHeader = false ∧ st.sent = none
 
-/-- a header edit or an informational (1xx, not 101) WriteHeader -/
-def Preliminary (op : Op α) : Prop :=
-  (∃ k v, op = Op.hset k v) ∨ (∃ k v, op = Op.hadd k v) ∨ (∃ k, op = Op.hdel k) ∨
-    (∃ i, op = Op.writeHeader i ∧ is1xx i = true ∧ i ≠ 101)
-
 theorem uncommitted_run (cfg : Cfg α) : ∀ (ops : List (Op α)) (st : St α), (∀ op ∈ ops, Preliminary op) →
     Uncommitted st → Uncommitted (run cfg st ops)
   | [], _, _, h => h
@@ -1149,5 +1144,20 @@ theorem weakPrefix_append (b : Bytes) (name : Bytes) (h : hasPrefix vWeakPrefix 
   | c1 :: c2 :: r =>
     simp [hasPrefix, vWeakPrefix, List.isPrefixOf] at h ⊢
     exact h
+
+/-! ## payloads as bytes -/
+
+theorem flatten_nonEmpty (cfg : Cfg Bytes) (hsz : cfg.size = List.length) :
+    ∀ (cs : List Bytes), (nonEmpty cfg cs).flatten = cs.flatten
+  | [] => rfl
+  | c :: cs => by
+    unfold nonEmpty
+    rw [List.filter_cons]
+    have ih := flatten_nonEmpty cfg hsz cs
+    unfold nonEmpty at ih
+    by_cases hc : c = []
+    · subst hc; rw [hsz] at ih ⊢; simp [ih]
+    · have : (cfg.size c != 0) = true := by simp [hsz, hc]
+      simp only [this, if_true, List.flatten_cons, ih]
 
 end CaddyModel.C15
